@@ -162,10 +162,12 @@ class C15(Check):
         except (ValueError, IndexError):
             return line
         pre = toks[:2]
-        budget = [120]
+        budget = [40]
 
         def candidates(t, path=()):
             if isinstance(t, list):
+                return
+            if t["h"][0] == "while":      # never edit a loop: a removed increment makes both worlds spin
                 return
             for i, c in enumerate(t["k"]):
                 yield path + (i,)
@@ -278,7 +280,8 @@ class C15(Check):
                 clause = kv.get("clause", kv.get("what", "?"))
                 if kind == "MISMATCH" and n_corr >= 3:
                     continue
-                if kind == "SPECFAIL" and len([k for k in seen if k[0] == clause]) >= 6:
+                sig = (clause, re.sub(r".*(crash:sig=\d+|timeout).*", r"\1", case.split(" | ")[-1]) if kind == "SPECFAIL" else "")
+                if kind == "SPECFAIL" and len([k for k in seen if k[0] == sig]) >= 5:
                     continue
 
                 def still(cand, kind=kind, clause=clause):
@@ -294,7 +297,7 @@ class C15(Check):
                     _, sl = self._replay_lines(harness, driver, [shown])
                     shown = sl[0] if sl else shown
                 text = self._text(harness, shown)
-                key = (clause, text)
+                key = (sig if kind == "SPECFAIL" else clause, text)
                 if key in seen:
                     continue
                 seen.add(key)
